@@ -11,7 +11,9 @@ NOT_APPLICABLE = {}
 
 
 _SYNC_NOTE = ("Trusted: TLC; the harness stream (hstream) and snapshotter (own lstat/readlink/llistxattr code); ext4 as root; "
-              "generators' domain (no sockets, majors < 4096, regular-file hard links only); bounded universes and seeded random cases.")
+              "generators' domain (no sockets; device numbers up to 12-bit majors and 20-bit minors; hard-link groups of regular files, "
+              "fifos and device nodes; xattrs user.*, trusted.*, security.capability; short-read and slow sources; rewriting and rejecting "
+              "receiver Filters); bounded universes and seeded random cases.")
 
 CLAIMED = {
     "C01": dict(
